@@ -588,66 +588,76 @@ def seqxRangeCheck (xs : List Rat) (ampl : Rat) : Except Err Unit :=
 /-- `amplitudes` of the SEQX package: one 0 appended for a single channel -/
 def padAmplitudes (amps : List Rat) : List Rat := if amps.length = 1 then amps ++ [0] else amps
 
+/-- AWG5014 phase 1 for one waveform: voltage check (or a range obligation when the model cannot
+    evaluate the waveform) and the rescaled waveform -/
+def awgCheckWave (s : Sequence) (pos : Nat) (el : Dict Chan ChOutF) (ch : Chan) : Except Err (List RangeOb × Wave) :=
+  match s.specNum (keyOf ch "amplitude") with
+  | none => .error .type
+  | some ampl =>
+    match s.specNum (keyOf ch "offset") with
+    | none => .error .type
+    | some off =>
+      match lookupCh el ch with
+      | .error e => .error e
+      | .ok c =>
+        match chWave c with
+        | .error e => .error e
+        | .ok w =>
+          match w.eval? with
+          | some xs =>
+            -- every voltage failure is a ValueError, so a decidable one can be raised at once
+            (awgRangeCheck xs ampl off).map (fun _ => ([], { w with resc := some (ampl, off) }))
+          | none => .ok ([⟨pos, ch, w, -ampl / 2 + off, ampl / 2 + off⟩], { w with resc := some (ampl, off) })
+
+/-- AWG5014 phase 2 for one position: both marker rows and the validated sequencing entry -/
+def awgRow (s : Sequence) (chans : List Chan) (seqlen : Int) (p : Dict Chan ChOutF × Nat) :
+    Except Err (List (List Rat) × List (List Rat) × SeqSet) :=
+  match chans.mapM (fun ch => match lookupCh p.1 ch with | .error e => Except.error e | .ok c => chMarker c 1) with
+  | .error e => .error e
+  | .ok m1 =>
+    match chans.mapM (fun ch => match lookupCh p.1 ch with | .error e => Except.error e | .ok c => chMarker c 2) with
+    | .error e => .error e
+    | .ok m2 =>
+      match Dict.get? s.sequencing ((p.2 + 1 : Nat) : Int) with
+      | none => .error .key
+      | some q =>
+        match awgSeqCheck q seqlen with
+        | .error e => .error e
+        | .ok _ => .ok (m1, m2, q)
+
+/-- the AWG5014 package assembled from the two phases -/
+def awgPackage (chs : List Chan) (nCh : Nat) (waves : List (List Wave))
+    (rows : List (List (List Rat) × List (List Rat) × SeqSet)) : AWGPkg :=
+  { channels := chs, wfms := transpose nCh waves, m1s := transpose nCh (rows.map (·.1)),
+    m2s := transpose nCh (rows.map (·.2.1)), nreps := rows.map (·.2.2.nrep), trig_waits := rows.map (·.2.2.twait),
+    gotos := rows.map (·.2.2.goto), jump_tos := rows.map (·.2.2.jump_target) }
+
 /-- `Sequence.outputForAWGFile()` -/
-def outputForAWGFile (s : Sequence) : Except Err (Deferred AWGPkg) := do
-  let elements ← s.prepareForOutputting
-  let seqlen : Int := elements.length
-  let chans ← match Dict.get? s.data 1 with
-    | some en => en.channels
-    | none => throw Err.key
-  for ch in chans do
-    if !(Dict.has s.awgspecs (keyOf ch "offset")) then throw .value
-  -- range check and rescaling, position by position, channel by channel
-  let mut obs : List RangeOb := []
-  let mut rows : List (List Wave) := []
-  let mut pos : Nat := 0
-  for el in elements do
-    pos := pos + 1
-    let mut row : List Wave := []
-    for ch in chans do
-      let ampl ← match s.specNum (keyOf ch "amplitude") with | some q => pure q | none => throw Err.type
-      let off ← match s.specNum (keyOf ch "offset") with | some q => pure q | none => throw Err.type
-      let w ← chWave (← lookupCh el ch)
-      match w.eval? with
-      | some xs =>
-        -- every voltage failure is a ValueError, so a decidable one can be raised at once
-        awgRangeCheck xs ampl off
-      | none => obs := obs ++ [⟨pos, ch, w, -ampl / 2 + off, ampl / 2 + off⟩]
-      row := row ++ [{ w with resc := some (ampl, off) }]
-    rows := rows ++ [row]
-  -- collect markers and validate sequencing, position by position
-  let mut m1rows : List (List (List Rat)) := []
-  let mut m2rows : List (List (List Rat)) := []
-  let mut nreps : List Int := []
-  let mut twaits : List Int := []
-  let mut gotos : List Int := []
-  let mut jumps : List Int := []
-  let mut late : Option Err := none
-  pos := 0
-  for el in elements do
-    pos := pos + 1
-    if late.isNone then
-      let r : Except Err (List (List Rat) × List (List Rat) × SeqSet) := do
-        let m1 ← chans.mapM (fun ch => do chMarker (← lookupCh el ch) 1)
-        let m2 ← chans.mapM (fun ch => do chMarker (← lookupCh el ch) 2)
-        let q ← match Dict.get? s.sequencing (pos : Int) with | some q => pure q | none => throw Err.key
-        awgSeqCheck q seqlen
-        pure (m1, m2, q)
-      match r with
-      | .error er => late := some er
-      | .ok (m1, m2, q) =>
-        m1rows := m1rows ++ [m1]; m2rows := m2rows ++ [m2]
-        nreps := nreps ++ [q.nrep]; twaits := twaits ++ [q.twait]
-        gotos := gotos ++ [q.goto]; jumps := jumps ++ [q.jump_target]
-  match late with
-  | some er =>
-    if obs.isEmpty then throw er else pure ⟨obs, some er, none⟩
-  | none =>
-    let nCh := chans.length
-    let chs ← s.channels
-    pure ⟨obs, none, some { channels := chs, wfms := transpose nCh rows, m1s := transpose nCh m1rows,
-                            m2s := transpose nCh m2rows, nreps := nreps, trig_waits := twaits,
-                            gotos := gotos, jump_tos := jumps }⟩
+def outputForAWGFile (s : Sequence) : Except Err (Deferred AWGPkg) :=
+  match s.prepareForOutputting with
+  | .error e => .error e
+  | .ok elements =>
+    match Dict.get? s.data 1 with
+    | none => .error .key
+    | some en =>
+      match en.channels with
+      | .error e => .error e
+      | .ok chans =>
+        if chans.any (fun ch => !(Dict.has s.awgspecs (keyOf ch "offset"))) then .error .value
+        else
+          -- range check and rescaling, position by position, channel by channel
+          match (elements.zip (List.range elements.length)).mapM (fun p => chans.mapM (awgCheckWave s (p.2 + 1) p.1)) with
+          | .error e => .error e
+          | .ok checked =>
+            let obs := (checked.map (fun row => (row.map (·.1)).flatten)).flatten
+            let waves := checked.map (fun row => row.map (·.2))
+            -- collect markers and validate sequencing, position by position
+            match (elements.zip (List.range elements.length)).mapM (awgRow s chans (elements.length : Int)) with
+            | .error er => if obs.isEmpty then .error er else .ok ⟨obs, some er, none⟩
+            | .ok rows =>
+              match s.channels with
+              | .error e => .error e
+              | .ok chs => .ok ⟨obs, none, some (awgPackage chs chans.length waves rows)⟩
 
 /-- Python `range(start, stop, step)` -/
 def pyRange (start stop step : Int) : List Int :=
@@ -682,58 +692,81 @@ structure SEQXPkg where
   flags : Option (List (List (List Nat)))
   deriving Repr, Inhabited
 
-/-- `Sequence.outputForSEQXFile()` -/
-def outputForSEQXFile (s : Sequence) : Except Err (Deferred SEQXPkg) := do
-  let elements ← s.prepareForOutputting
-  let seqlen : Int := elements.length
-  let chans ← match Dict.get? s.data 1 with
-    | some en => en.channels
-    | none => throw Err.key
-  let amps ← chans.mapM (fun ch =>
-    match s.specNum (keyOf ch "amplitude") with | some q => pure q | none => throw Err.type)
-  let amplitudes := padAmplitudes amps
-  let mut obs : List RangeOb := []
-  let mut pos : Nat := 0
-  for el in elements do
-    pos := pos + 1
-    for (ch, ampl) in chans.zip amps do
-      let w ← chWave (← lookupCh el ch)
+/-- SEQX phase 1 for one waveform: length and voltage check; a waveform the model cannot evaluate
+    (symbolic pulse, filtered) leaves a range obligation for the harness -/
+def seqxCheckWave (pos : Nat) (el : Dict Chan ChOutF) (x : Chan × Rat) : Except Err (List RangeOb) :=
+  match lookupCh el x.1 with
+  | .error e => .error e
+  | .ok c =>
+    match chWave c with
+    | .error e => .error e
+    | .ok w =>
       -- length and voltage failures are all ValueErrors: decidable ones are raised at once
-      if Gen.seqxLenBad w.len then throw Err.value
-      match w.eval? with
-      | some xs =>
-        seqxRangeCheck xs ampl
-      | none => obs := obs ++ [⟨pos, ch, w, -ampl / 2, ampl / 2⟩]
-  let mut rows : List (List (Wave × List Rat × List Rat)) := []
-  let mut tw : List Int := []
-  let mut nr : List Int := []
-  let mut js : List Int := []
-  let mut jt : List Int := []
-  let mut gt : List Int := []
-  let mut late : Option Err := none
-  pos := 0
-  for el in elements do
-    pos := pos + 1
-    if late.isNone then
-      let r : Except Err (List (Wave × List Rat × List Rat) × SeqSet) := do
-        let row ← chans.mapM (fun ch => do
-          let c ← lookupCh el ch
-          pure (← chWave c, ← chMarker c 1, ← chMarker c 2))
-        let q ← match Dict.get? s.sequencing (pos : Int) with | some q => pure q | none => throw Err.key
-        seqxSeqCheck q seqlen
-        pure (row, q)
-      match r with
-      | .error er => late := some er
-      | .ok (row, q) =>
-        rows := rows ++ [row]
-        tw := tw ++ [q.twait]; nr := nr ++ [q.nrep]; js := js ++ [q.jump_input]
-        jt := jt ++ [q.jump_target]; gt := gt ++ [q.goto]
-  match late with
-  | some er => if obs.isEmpty then throw er else pure ⟨obs, some er, none⟩
-  | none =>
-    pure ⟨obs, none, some { trig_waits := tw, nreps := nr, event_jumps := js, event_jump_to := jt,
-                            go_to := gt, wfms := transpose chans.length rows,
-                            amplitudes := amplitudes, seqname := s.name, flags := none }⟩
+      if Gen.seqxLenBad w.len then .error .value
+      else match w.eval? with
+        | some xs => (seqxRangeCheck xs x.2).map (fun _ => [])
+        | none => .ok [⟨pos, x.1, w, -x.2 / 2, x.2 / 2⟩]
+
+/-- SEQX phase 1: every position, every channel -/
+def seqxPhase1 (elements : List (Dict Chan ChOutF)) (chans : List Chan) (amps : List Rat) : Except Err (List RangeOb) :=
+  ((elements.zip (List.range elements.length)).mapM (fun p =>
+      ((chans.zip amps).mapM (seqxCheckWave (p.2 + 1) p.1)).map List.flatten)).map List.flatten
+
+/-- (waveform, m1, m2) of one channel of one forged element -/
+def seqxCell (el : Dict Chan ChOutF) (ch : Chan) : Except Err (Wave × List Rat × List Rat) :=
+  match lookupCh el ch with
+  | .error e => .error e
+  | .ok c =>
+    match chWave c with
+    | .error e => .error e
+    | .ok w =>
+      match chMarker c 1 with
+      | .error e => .error e
+      | .ok m1 =>
+        match chMarker c 2 with
+        | .error e => .error e
+        | .ok m2 => .ok (w, m1, m2)
+
+/-- SEQX phase 2 for one position: (waveform, m1, m2) of every channel, and the validated
+    sequencing entry -/
+def seqxRow (s : Sequence) (chans : List Chan) (seqlen : Int) (p : Dict Chan ChOutF × Nat) :
+    Except Err (List (Wave × List Rat × List Rat) × SeqSet) :=
+  match chans.mapM (seqxCell p.1) with
+  | .error e => .error e
+  | .ok row =>
+    match Dict.get? s.sequencing ((p.2 + 1 : Nat) : Int) with
+    | none => .error .key
+    | some q =>
+      match seqxSeqCheck q seqlen with
+      | .error e => .error e
+      | .ok _ => .ok (row, q)
+
+/-- the package assembled from the rows of phase 2 -/
+def seqxPackage (s : Sequence) (nCh : Nat) (amps : List Rat) (rows : List (List (Wave × List Rat × List Rat) × SeqSet)) : SEQXPkg :=
+  { trig_waits := rows.map (·.2.twait), nreps := rows.map (·.2.nrep), event_jumps := rows.map (·.2.jump_input),
+    event_jump_to := rows.map (·.2.jump_target), go_to := rows.map (·.2.goto),
+    wfms := transpose nCh (rows.map (·.1)), amplitudes := padAmplitudes amps, seqname := s.name, flags := none }
+
+/-- `Sequence.outputForSEQXFile()` -/
+def outputForSEQXFile (s : Sequence) : Except Err (Deferred SEQXPkg) :=
+  match s.prepareForOutputting with
+  | .error e => .error e
+  | .ok elements =>
+    match Dict.get? s.data 1 with
+    | none => .error .key
+    | some en =>
+      match en.channels with
+      | .error e => .error e
+      | .ok chans =>
+        match chans.mapM (fun ch => match s.specNum (keyOf ch "amplitude") with | some q => Except.ok q | none => .error Err.type) with
+        | .error e => .error e
+        | .ok amps =>
+          match seqxPhase1 elements chans amps with
+          | .error e => .error e
+          | .ok obs =>
+            match (elements.zip (List.range elements.length)).mapM (seqxRow s chans (elements.length : Int)) with
+            | .error er => if obs.isEmpty then .error er else .ok ⟨obs, some er, none⟩
+            | .ok rows => .ok ⟨obs, none, some (seqxPackage s chans.length amps rows)⟩
 
 /-- `Sequence.outputForSEQXFileWithFlags()` -/
 def outputForSEQXFileWithFlags (s : Sequence) : Except Err (Deferred SEQXPkg) := do
